@@ -1,109 +1,98 @@
 /-
-C09 tie: the column rule of the formatter's bindings, TRANSLATED from
-martian/syntax/format_callable.go on every run (extract/translate*.go):
+C09 tie (by x-c08): x-c09's round-trip theorems are about a hand-written
+recursive-descent READER (`Martian.FormatExp.parseToks` / `parseValExp`).  The
+real parser is goyacc's table-driven loop; `Martian.LexerLR.parseLR` is that
+loop — the model of `mmParse` on the tables re-read from grammar.go on every
+run (proved memory safe and terminating for all inputs, Props/C08.lean
+`lr_driver_total`; its state/action trace is compared with the real parser's own
+debug trace on every run) — with the semantic actions of the value-expression
+sub-grammar, recognised by their text in grammar.go, building the same AST type.
 
-* `Gen.tr_idWidth`: the first loop of `BindStms.format` (a loop over the list of
-  bindings with `break`, translated as a fold whose state carries the flag) as a
-  function of the list of the bindings' ids → `FormatCall2.idWidthGo`;
-* `Gen.tr_BindStmFormat`: `BindStm.format` (writes to the printer translated as
-  a byte trace, the padding loop as a counted fold; comments are outside the
-  model; the value is written by `Exp.format`, a parameter) →
-  `FormatCall2.fmtBind`.
+NOT proved: that the two parsers are equal on all token lists (`LRAgrees`; the
+standard LR-correctness argument for this grammar was out of reach).  It is
+CHECKED on every run of `./check C08`: ≥ 12 000 generated value expressions and
+token-level mutants per quick run, model against model (`C08.lrcmp`), and both
+against `Parser.ParseValExp`'s accept/reject.  The corollaries below are
+therefore `_partial`: they carry `LRAgrees` (or its instance for the token list
+at hand) as an explicit hypothesis.
 -/
-import Martian.FormatCall2
-import Gen.Facts
+import Props.C09
+import Martian.LexerLRSem
+import Proofs.TieC09
 
-namespace Props.C09Tie
-open Martian.Lexer (Bytes)
-open Martian.FormatExp Martian.FormatCall Martian.FormatCall2
+namespace Props.C09
+open Martian.FormatExp Martian.LexerLR
 
-/-! ### the width of the id column -/
+/-- the goyacc parser model and the recursive-descent reader return the same
+result on every token list -/
+def LRAgrees : Prop := ∀ ts : List Tok, parseLR ts = parseToks ts
 
-/-- one round of the translated loop: (idWidth, stopped by `break`) -/
-def idStep (st : Int × Bool) (x : List UInt8) : Int × Bool :=
-  if st.2 then (st.1, st.2)
-  else
-    (if x == ([0x2A] : List UInt8)
-      then ((if decide (Int.ofNat x.length < 30) then max st.1 (Int.ofNat x.length) else st.1), true)
-      else ((if decide (Int.ofNat x.length < 30) then max st.1 (Int.ofNat x.length) else st.1), st.2))
+/- Full statement (the goal; not proved):
+     theorem lr_agrees : LRAgrees -/
 
-/-- the translated term is that fold (definitional: only `let`s are unfolded) -/
-theorem tr_idWidth_fold (ids : List (List UInt8)) :
-    Gen.tr_idWidth ids = (ids.foldl idStep (0, false)).1 := rfl
+/-- Under `LRAgrees` the two front ends are the same function of the source text. -/
+theorem goyacc_parse_eq_reader_partial (h : LRAgrees) (src : List UInt8) :
+    parseValExpLR src = parseValExp src := by
+  unfold parseValExpLR parseValExp
+  cases lexAll src with
+  | none => rfl
+  | some ts => exact h ts
 
-theorem idStep_stopped : ∀ (ids : List (List UInt8)) (w : Int), ids.foldl idStep (w, true) = (w, true)
-  | [], _ => rfl
-  | x :: r, w => by simp [List.foldl, idStep, idStep_stopped r w]
+/-- **format, then the goyacc parser**: modulo `LRAgrees`, the real LR algorithm
+with the real tables reads a printed well-formed value expression back as the
+expression (up to the documented normalisations `norm`). -/
+theorem format_then_goyacc_parse_partial (h : LRAgrees) (e : Exp) (hw : wf e = true) (hv : isVal e = true) :
+    parseValExpLR (fmt [] e) = some (norm e) := by
+  rw [goyacc_parse_eq_reader_partial h]
+  exact parse_format_exp e hw hv
 
-theorem idStep_fold : ∀ (bs : List Bind) (w : Int), 0 ≤ w →
-    ((bs.map (·.id)).foldl idStep (w, false)).1 = max w ((idWidthGo bs : Nat) : Int)
-  | [], w, hw => by simp [idWidthGo]; omega
-  | b :: r, w, hw => by
-    simp only [List.map, List.foldl]
-    by_cases hs : b.id = sStar
-    · have hstep : idStep (w, false) b.id = (max w 1, true) := by
-        simp [idStep, hs, sStar]
-      have hm : idWidthGo (b :: r) = 1 := by simp [idWidthGo, hs, sStar]
-      rw [hstep, idStep_stopped, hm]
-      rfl
-    · have hne : (b.id == ([0x2A] : List UInt8)) = false := by simpa [sStar] using hs
-      by_cases hl : b.id.length < 30
-      · have hstep : idStep (w, false) b.id = (max w (b.id.length : Int), false) := by
-          have : ((b.id.length : Int) < 30) := by omega
-          simp [idStep, hne, this, Int.ofNat_eq_coe]
-        have hm : idWidthGo (b :: r) = max b.id.length (idWidthGo r) := by simp [idWidthGo, hs, hl]
-        rw [hstep, idStep_fold r _ (by omega), hm]
-        omega
-      · have hstep : idStep (w, false) b.id = (w, false) := by
-          have : ¬ ((b.id.length : Int) < 30) := by omega
-          simp [idStep, hne, this, Int.ofNat_eq_coe]
-        have hm : idWidthGo (b :: r) = idWidthGo r := by simp [idWidthGo, hs, hl]
-        rw [hstep, idStep_fold r w hw, hm]
+/-- the same with any white-space indentation prefix -/
+theorem format_prefix_then_goyacc_parse_partial (h : LRAgrees) (e : Exp) (p : List UInt8) (hw : wf e = true)
+    (hv : isVal e = true) (hp : p.all isSp = true) : parseValExpLR (fmt p e) = some (norm e) := by
+  rw [goyacc_parse_eq_reader_partial h]
+  exact parse_format_exp_prefix e p hw hv hp
 
-/-- THE TIE: the first loop of `BindStms.format`, on the ids of ANY list of
-bindings (also with a `*` binding in the middle, where the loop stops), computes
-the model's `idWidthGo` -/
-theorem tr_idWidth_eq_model (bs : List Bind) :
-    Gen.tr_idWidth (bs.map (·.id)) = Int.ofNat (idWidthGo bs) := by
-  rw [tr_idWidth_fold, idStep_fold bs 0 (by omega), Int.ofNat_eq_coe]
-  omega
+/-- and read-then-print through the goyacc parser is idempotent on printed texts -/
+theorem goyacc_read_print_fixed_partial (h : LRAgrees) (e : Exp) (hw : wf e = true) (hv : isVal e = true) :
+    (parseValExpLR (fmt [] e)).map (fmt []) = some (fmt [] e) := by
+  rw [format_then_goyacc_parse_partial h e hw hv]
+  simp only [Option.map_some]
+  rw [format_exp_idem e [] hw]
 
-/-! ### one binding -/
-
-theorem pad_fold (n : Nat) : ∀ (t : List UInt8),
-    List.foldl (fun st_ (_ : Nat) => st_ ++ [(32 : UInt8)]) t (List.range n) = t ++ List.replicate n 32 := by
-  induction n with
-  | zero => intro t; simp
-  | succ n ih =>
-    intro t
-    rw [List.range_succ, List.foldl_append, ih]
-    simp [List.replicate_succ', List.append_assoc]
-
-/-- what `BindStm.format` writes, for every prefix, width, id and value printer -/
-theorem tr_BindStmFormat_spec (p : List UInt8) (w : Int) (id : List UInt8) (expFormat : List UInt8 → List UInt8) :
-    Gen.tr_BindStmFormat p w id expFormat =
-      p ++ indent ++ id ++ spaces (Int.toNat (w - Int.ofNat id.length)) ++ [0x20, 0x3D, 0x20] ++
-        expFormat (p ++ indent) ++ [0x2C, 0x0A] := by
-  simp only [Gen.tr_BindStmFormat]
-  rw [pad_fold]
-  simp [indent, spaces, List.append_assoc]
-
-/-- THE TIE: `BindStm.format` with the column width `w` is the model's `fmtBind`
-(the `split ` of a split binding is written by `SplitExp.format`, i.e. belongs to
-the value printer) -/
-theorem tr_BindStmFormat_eq_model (p : Bytes) (w : Nat) (b : Bind) :
-    Gen.tr_BindStmFormat p (Int.ofNat w) b.id
-        (fun q => (if b.split then sSplit ++ [0x20] else []) ++ fmt q b.exp) = fmtBind p w b := by
-  rw [tr_BindStmFormat_spec]
-  have : Int.toNat (Int.ofNat w - Int.ofNat b.id.length) = w - b.id.length := by
-    simp only [Int.ofNat_eq_coe]; omega
-  simp [fmtBind, bindPre, this, List.append_assoc]
-
-/-- non-vacuity: `ab`, a 31-byte id (does not count), `*` (stops the loop), `abcdef` (not reached) -/
+-- non-vacuity: on concrete token lists the two parsers do agree (kernel-evaluated: the LR loop on the
+-- regenerated tables with the actions, against the reader), accepted and rejected alike:
+-- `[1, {"a": null}, X.y]`, `{k: [true]}`, `[1,,]`, `X.y`
 example :
-    Gen.tr_idWidth [[0x61, 0x62], List.replicate 31 0x61, [0x2A], [0x61, 0x62, 0x63, 0x64, 0x65, 0x66]] = 2 ∧
-    Gen.tr_idWidth [[0x61, 0x62], [0x61, 0x62, 0x63]] = 3 ∧
-    Gen.tr_BindStmFormat [0x3E] 4 [0x61, 0x62] (fun _ => [0x31]) =
-      [0x3E, 0x20, 0x20, 0x20, 0x20, 0x61, 0x62, 0x20, 0x20, 0x20, 0x3D, 0x20, 0x31, 0x2C, 0x0A] := by decide
+    optExpEq (parseLR [.punct 0x5B, .int [0x31], .punct 0x2C, .punct 0x7B, .str [0x22, 0x61, 0x22], .punct 0x3A, .kNull,
+        .punct 0x7D, .punct 0x2C, .id [0x58], .punct 0x2E, .id [0x79], .punct 0x5D])
+      (parseToks [.punct 0x5B, .int [0x31], .punct 0x2C, .punct 0x7B, .str [0x22, 0x61, 0x22], .punct 0x3A, .kNull,
+        .punct 0x7D, .punct 0x2C, .id [0x58], .punct 0x2E, .id [0x79], .punct 0x5D]) = true ∧
+    (parseLR [.punct 0x7B, .id [0x6B], .punct 0x3A, .punct 0x5B, .kTrue, .punct 0x5D, .punct 0x7D]).isSome = true ∧
+    optExpEq (parseLR [.punct 0x5B, .int [0x31], .punct 0x2C, .punct 0x2C, .punct 0x5D])
+      (parseToks [.punct 0x5B, .int [0x31], .punct 0x2C, .punct 0x2C, .punct 0x5D]) = true ∧
+    (parseLR [.id [0x58], .punct 0x2E, .id [0x79]]).isNone = true := by decide +kernel
 
-end Props.C09Tie
+/-! ### translated definitions (by x-c07; development in Proofs/TieC09.lean)
+
+`Gen.tr_idWidth` / `Gen.tr_BindStmFormat` are TRANSLATED from
+martian/syntax/format_callable.go on every run (TRANSLATOR.md). -/
+
+/-- the first loop of `BindStms.format` (records, `break`), on the ids of ANY list
+of bindings, computes the model's `idWidthGo`; demands that the definition was
+really extracted from the tree under test (not the committed default) -/
+theorem tr_idWidth_eq_model (bs : List Martian.FormatCall.Bind) :
+    Gen.tr_idWidth_extracted = true ∧
+    Gen.tr_idWidth (bs.map (·.id)) = Int.ofNat (Martian.FormatCall2.idWidthGo bs) :=
+  ⟨by decide, Proofs.TieC09.tr_idWidth_eq_model bs⟩
+
+/-- `BindStm.format` (byte trace of the printer) with the column width `w` is the
+model's `fmtBind`; extracted from the tree under test -/
+theorem tr_BindStmFormat_eq_model (p : List UInt8) (w : Nat) (b : Martian.FormatCall.Bind) :
+    Gen.tr_BindStmFormat_extracted = true ∧
+    Gen.tr_BindStmFormat p (Int.ofNat w) b.id
+        (fun q => (if b.split then Martian.FormatExp.sSplit ++ [0x20] else []) ++ Martian.FormatExp.fmt q b.exp) =
+      Martian.FormatCall2.fmtBind p w b :=
+  ⟨by decide, Proofs.TieC09.tr_BindStmFormat_eq_model p w b⟩
+
+
+end Props.C09
